@@ -140,7 +140,10 @@ def run(rep, tier, seed, replay):
         "differing_cases_in_coq": n_diff, "coqchk": chk,
         "rule": "every binary tree shape with <= %d leaves; left/right/zig-zag chains of every depth 1..128 and 129 (rejection); chains ending in "
                 "full subtrees at depth 127..129; seeded random shapes up to 64 leaves; random deep spines around the limit; each built through "
-                "TapTree::combine and through the parser, re-parsed from Display, translated with an injective key map (same key type and from named keys)"
+                "TapTree::combine and through the parser, re-parsed from Display, translated with an injective key map (same key type and from named keys); "
+                "every shape with 2..6 leaves (and random larger ones) built through the API with ONE Arc<Miniscript> shared by several leaf "
+                "positions (each adjacent pair, distance-2 pairs, all, alternating, disjoint pairs, random runs), translated and also instantiated "
+                "over wildcard xpub keys and derived with derive_at_index / derived_descriptor (expected keys by bitcoin::bip32)"
                 % (9 if tier == "thorough" else 8),
         "families": r["families"], "leaves_hist": r["leaves_hist"], "height_hist": r["height_hist"],
         "leaf_kind_hist": r["leaf_kind_hist"], "key_type_hist": r["key_type_hist"],
